@@ -43,6 +43,10 @@ def r_char(rnd: random.Random) -> str:
         return chr(c) if not 0xD800 <= c <= 0xDFFF else "€"
     if k == 8:
         return chr(rnd.randrange(0x10000, 0x110000))
+    if rnd.random() < 0.4:
+        # text that Unicode normalisation (NFC / NFKC) would change: decomposed letters, compatibility characters,
+        # conjoining jamo - a library must transport it octet for octet
+        return rnd.choice(("e\u0301", "a\u0308", "\u212b", "\u2126", "\uf900", "\uff21", "\ufb01", "\u00bd", "\u1100\u1161", "\u00b2", "\u1e9b\u0323"))
     return rnd.choice("()*\\'\"$| é \U0001f600")
 
 
@@ -67,7 +71,7 @@ def r_int(rnd: random.Random) -> int:
 
 
 def r_code(rnd: random.Random) -> int:
-    return rnd.choice((0, 0, 0, 2, 14, 10, 49, 80, 9, 15, 22, 4096, 16654, 127, 128, 255, 256, 2**31 - 1, 2**31, 71, 70))
+    return rnd.choice((0, 0, 0, 2, 14, 10, 49, 80, 9, 15, 22, 4096, 16654, 127, 128, 255, 256, 2**31 - 1, 2**31, 71, 70, 118, 123, 2**32, 2**40 + 1, 2**63, 2**64 + 5))
 
 
 def r_attr(rnd: random.Random) -> str:
@@ -165,8 +169,11 @@ def r_message(rnd: random.Random, kinds: t.Optional[t.Sequence[str]] = None, mid
     if kind == "unbind":
         return s.UnbindRequest(i, c)
     if kind == "searchReq":
+        attrs = [r_attr(rnd) for _ in range(rnd.randrange(0, 4))]
+        if rnd.random() < 0.3:   # the special selectors of RFC 4511 4.5.1.8, alone and mixed with others, repeated
+            attrs = rnd.choice((["1.1"], ["cn", "1.1"], ["1.1", "*"], ["*", "+"], ["1.1", "1.1"], ["+", "cn", "1.1", "cn"], ["*"]))
         return s.SearchRequest(i, c, r_text(rnd), s.SearchScope(rnd.randrange(3)), s.DereferencingPolicy(rnd.randrange(4)), r_int(rnd), r_int(rnd),
-                               rnd.random() < 0.5, r_filter(rnd, rnd.randrange(0, 4)), [r_attr(rnd) for _ in range(rnd.randrange(0, 4))])
+                               rnd.random() < 0.5, r_filter(rnd, rnd.randrange(0, 4)), attrs)
     if kind == "entry":
         return s.SearchResultEntry(i, c, r_text(rnd), [s.PartialAttribute(r_attr(rnd), [r_bytes(rnd, True) for _ in range(rnd.randrange(0, 4))])
                                                         for _ in range(rnd.randrange(0, 4))])
